@@ -176,7 +176,7 @@ def run_script_sym(it, script, opts=None):
     tol = None
     if opts.get("tolerance"):
         tol = as_dur_val(P.dur("tol"))
-    w = SimWorld(it, as_time_val(t0), tolerance=tol, names=opts.get("names"))
+    w = SimWorld(it, as_time_val(t0), tolerance=tol, names=opts.get("names") or ["a", "b"])
     w.permute = bool(opts.get("permute"))
     # loop bounds: inner loops of one step are bounded by the number of queue entries (+ slack); the outer loop of
     # step_until by the stated number of distinct due times
@@ -245,7 +245,8 @@ def run_script_sym(it, script, opts=None):
                 r = wld.schedule(dlv, act, origin=None if owner_origin == 0 else I(owner_origin, "usize"))
                 cur[0].events.append(("esched", i, res_of(r)))
             elif eff["op"] == "panic":
-                raise Unsupported("panic effect is native-only; MIRSE injects executor faults instead")
+                from .simworld import ModelPanic
+                raise ModelPanic()
         return run_effect
 
     fault_at = opts.get("fault_at")  # (cmd index, kind)
@@ -365,6 +366,9 @@ def oracle(script, P, obs, ck, opts=None):
     last_write_t = None
     key_cancelled = set()
     nsync = 0
+    nfire = [0]            # ordinal of the action execution currently being processed
+    fire_time_class = {}   # ordinal -> ordinal of the first execution of the same time step (same step <=> same class)
+    panic_ids = set(c["id"] for c in script if c["op"] == "sched" and c.get("effect") and c["effect"]["op"] == "panic")
 
     def add_entry(lid, d, origin, period, key, born=None):
         seqn[0] += 1
@@ -391,7 +395,7 @@ def oracle(script, P, obs, ck, opts=None):
             ck.check(t_lt(now, d), "C08:accepted-deadline-in-future", f"cmd {i}")
             if period is not None:
                 ck.check(z3.Not(d_is_zero(period)), "C08:accepted-period-nonzero", f"cmd {i}")
-            add_entry(cmdlike["id"], d, origin, period, key, born=("handler", i, now) if label_prefix == "handler" else None)
+            add_entry(cmdlike["id"], d, origin, period, key, born=("handler", i, nfire[0]) if label_prefix == "handler" else None)
         else:
             var = res[1]
             if var == "InvalidScheduledTime":
@@ -449,6 +453,8 @@ def oracle(script, P, obs, ck, opts=None):
         synced_since_run = False
         outofsync = None
         oos_fatal = None        # z3 Bool: a lag above the tolerance was reported by a synchronize of this command
+        panicked = False
+        last_fire_cmd_step = None
         last_sync_in_cmd = None
         proc_entry = None
         if op == "process":
@@ -502,6 +508,10 @@ def oracle(script, P, obs, ck, opts=None):
                 run_open = False
             elif k == "fire":
                 lid, t = ev[1], ev[2]
+                nfire[0] += 1
+                same_step = bool(fired_now) and last_fire_cmd_step == (i, nsync)
+                fire_time_class[nfire[0]] = fire_time_class.get(nfire[0] - 1, nfire[0]) if same_step else nfire[0]
+                last_fire_cmd_step = (i, nsync)
                 if op in ("step", "until"):
                     # computations for time t only after synchronize(t)
                     ck.check(last_sync_in_cmd is not None and t_eq(last_sync_in_cmd, t) if last_sync_in_cmd is not None else False,
@@ -517,6 +527,9 @@ def oracle(script, P, obs, ck, opts=None):
                 e = cand[0]
                 e["fired"] = True
                 fired_now.append(e)
+                if lid in panic_ids:
+                    panic_ids.discard(lid)
+                    panicked = True
                 ck.check(t_eq(t, e["d"]), "C01:handler-sees-deadline", f"cmd {i}: action {lid}")
                 if not native:
                     ck.check(t_eq(now, e["d"]), "C01:executed-at-deadline", f"cmd {i}: action {lid}")
@@ -529,12 +542,12 @@ def oracle(script, P, obs, ck, opts=None):
                 for e2 in fired_now[:-1]:
                     if e2["origin"] == e["origin"] and e2["seq"] > e["seq"]:
                         b1, b2 = e.get("born"), e2.get("born")
-                        if b1 and b2 and b1[0] != b2[0] and b1[1] == b2[1] and z3.is_true(z3.simplify(b1[2] == b2[2])):
+                        if b1 and b2 and b1[0] != b2[0] and b1[1] == b2[1] and fire_time_class.get(b1[2]) == fire_time_class.get(b2[2]):
                             continue
                         ck.check(z3.Not(t_eq(e2["d"], e["d"])), "C07:same-origin-same-time-in-scheduling-order",
                                  f"cmd {i}: action {e2['id']} (scheduled later) ran before {lid}")
                 if e["period"] is not None:
-                    ne = add_entry(lid, t_add(e["d"], e["period"]), e["origin"], e["period"], e["key"], born=("reinsert", i, e["d"]))
+                    ne = add_entry(lid, t_add(e["d"], e["period"]), e["origin"], e["period"], e["key"], born=("reinsert", i, nfire[0]))
                     ne["cancelled"] = e["cancelled"] or (e["key"] in key_cancelled if e["key"] is not None else False)
             elif k == "skip":
                 # keyed action skipped by the in-model re-check (environment model): it counts as consumed
@@ -546,7 +559,7 @@ def oracle(script, P, obs, ck, opts=None):
                     e["skipped"] = True
                     ck.check(e["cancelled"], "C09:only-cancelled-skipped", f"cmd {i}: action {lid} skipped although not cancelled")
                     if e["period"] is not None:
-                        ne = add_entry(lid, t_add(e["d"], e["period"]), e["origin"], e["period"], e["key"], born=("reinsert", i, e["d"]))
+                        ne = add_entry(lid, t_add(e["d"], e["period"]), e["origin"], e["period"], e["key"], born=("reinsert", i, nfire[0]))
                         ne["cancelled"] = True
             elif k == "ecancel":
                 key_cancelled.add(ev[1])
@@ -564,6 +577,14 @@ def oracle(script, P, obs, ck, opts=None):
         ck.check(t_le(t_before, t_after), "C01:time-never-decreases", f"cmd {i}")
         res = o.res
         fatal = res[0] == "Err" and res[1] in FATAL
+        if panicked:
+            # a handler of model "a" panicked during this command
+            ck.check(res[0] == "Err" and res[1] == "Panic", "C11:panic-classified", f"cmd {i} ({op}): a handler panicked but the call returned {res[:2]}")
+            if res[0] == "Err" and res[1] == "Panic":
+                who = res[2].data.get("s") if hasattr(res[2], "data") else res[2]
+                ck.check(who == "a", "C11:panic-attributed-to-model", f"cmd {i}: panic attributed to {who!r} instead of 'a'")
+        elif res[0] == "Err" and res[1] == "Panic":
+            ck.check(False, "C11:panic-only-when-handler-panicked", f"cmd {i}")
         if fatal:
             terminated = True
             if "terminated" in o.__dict__ and o.terminated is not None:
